@@ -17,7 +17,7 @@ import (
 func init() {
 	core.Register(&core.Check{
 		ID:     "C20",
-		Rule:   "cases: PRNG-filled JSON-representable messages (in-range Timestamp/Duration, valid UTF-8, reversible FieldMask paths, set finite Values, resolvable nested Any, NaN/+-Inf/-0, 64-bit extremes, unknown numbers of open enums, extensions, groups, maps of every key kind, unknown fields sprinkled at several depths) of every linked message type (generated and dynamicpb) under all 64 combinations of Multiline, Indent, UseProtoNames, UseEnumNumbers, EmitUnpopulated, EmitDefaultValues; plus non-representable content (out-of-range or sign-mismatched Timestamp/Duration, invalid UTF-8, unset/non-finite Value, irreversible FieldMask, unresolvable or malformed Any) for the marshal-error direction; distinct = distinct (type, option set, output); non-trivial = at least one populated field",
+		Rule:   "cases: (local resolver) a dynamic schema known to a caller-supplied Resolver only - Any values embedding a message with extensions declared at file scope and inside a message, an extension of message type and a nested Any - marshalled and parsed back with that Resolver under the option combinations; PRNG-filled JSON-representable messages (in-range Timestamp/Duration, valid UTF-8, reversible FieldMask paths, set finite Values, resolvable nested Any, NaN/+-Inf/-0, 64-bit extremes, unknown numbers of open enums, extensions, groups, maps of every key kind, unknown fields sprinkled at several depths) of every linked message type (generated and dynamicpb) under all 64 combinations of Multiline, Indent, UseProtoNames, UseEnumNumbers, EmitUnpopulated, EmitDefaultValues; plus non-representable content (out-of-range or sign-mismatched Timestamp/Duration, invalid UTF-8, unset/non-finite Value, irreversible FieldMask, unresolvable or malformed Any) for the marshal-error direction; distinct = distinct (type, option set, output); non-trivial = at least one populated field",
 		Assume: []string{"proto.Equal (C30) and model/snapshot.go equality", "the classifier of non-representable content in checks/c20.go (transcribes the property statement)"},
 		Batches: func(tier string) []core.Batch {
 			if tier == "thorough" {
